@@ -284,7 +284,10 @@ class StmtMixin:
             # heap must be unchanged (same field values by identity)
             for i, h in st.heap.items():
                 h0 = heap0.get(i)
-                if h0 is None or type(h0) is not type(h):
+                if h0 is None:
+                    continue          # a temporary allocated inside the arm (e.g. the list in bytes([0])): unreachable afterwards
+                if type(h0) is not type(h) or (hasattr(h, 'f') and any(h.f.get(k_) is not v_ for k_, v_ in h0.f.items())) \
+                        or (hasattr(h, 'f') and len(h.f) != len(h0.f)):
                     rollback()
                     return False
             facts = st.pc[len(pc0) + 1:]
